@@ -4,7 +4,6 @@ import (
 	"go/ast"
 	"go/token"
 	"go/types"
-	"sort"
 
 	"golang.org/x/tools/go/cfg"
 
@@ -22,13 +21,97 @@ import (
 // struct, behind pointer or slice aliases, in range or index loops. Being path-insensitive, the analysis
 // makes no assumption about the conditions inside init: a sort that some path skips does not count.
 
-type c18Flow struct{ u, s, e bool }
+// c18UF: facts about one slice of rule structs (the package table, or a local one that is decoded, sorted and
+// then returned or assigned to the table): u "holds the unmarshalled literal", s "every value list sorted since".
+type c18UF struct {
+	u, s bool
+	grp  types.Object // the variable whose entries this one shares after `a = b` (nil: its own)
+}
 
-func (a c18Flow) meet(b c18Flow) c18Flow { return c18Flow{a.u && b.u, a.s && b.s, a.e && b.e} }
+// c18Grp is the share group of v: slices assigned from one another share their entries, so sorting the lists
+// through one sorts them for all (until one of them is decoded into or assigned again).
+func (a c18Flow) grpOf(v types.Object) types.Object {
+	if g := a.f[v].grp; g != nil {
+		return g
+	}
+	return v
+}
+
+// c18Flow is the state of the must-analysis: the facts of every tracked slice variable and e "the value list
+// of the entry the current loop is at has been sorted". A missing variable has no facts (both false).
+type c18Flow struct {
+	e bool
+	f map[types.Object]c18UF
+}
+
+// leave re-homes the slices that share the entries of v when v itself is about to get other entries (decoded
+// into or assigned): they keep sharing with each other, under a member as the group name.
+func (a c18Flow) leave(v types.Object) c18Flow {
+	var rep types.Object
+	for k, uf := range a.f {
+		if k != v && uf.grp == v && (rep == nil || k.Pos() < rep.Pos()) {
+			rep = k
+		}
+	}
+	if rep == nil {
+		return a
+	}
+	n := a
+	for k, uf := range a.f {
+		if k != v && uf.grp == v {
+			uf.grp = rep
+			if k == rep {
+				uf.grp = nil
+			}
+			n = n.with(k, uf)
+		}
+	}
+	return n
+}
+
+func (a c18Flow) with(o types.Object, uf c18UF) c18Flow {
+	n := c18Flow{e: a.e, f: map[types.Object]c18UF{}}
+	for k, v := range a.f {
+		n.f[k] = v
+	}
+	n.f[o] = uf
+	return n
+}
+
+func (a c18Flow) meet(b c18Flow) c18Flow {
+	n := c18Flow{e: a.e && b.e, f: map[types.Object]c18UF{}}
+	for k, v := range a.f {
+		w := b.f[k]
+		m := c18UF{u: v.u && w.u, s: v.s && w.s}
+		if v.grp == w.grp {
+			m.grp = v.grp
+		}
+		n.f[k] = m
+	}
+	return n
+}
+
+func (a c18Flow) eq(b c18Flow) bool {
+	if a.e != b.e {
+		return false
+	}
+	for k, v := range a.f {
+		if b.f[k] != v {
+			return false
+		}
+	}
+	for k, v := range b.f {
+		if a.f[k] != v {
+			return false
+		}
+	}
+	return true
+}
 
 // c18Loop is a loop over all entries of the table.
 type c18Loop struct {
 	stmt             ast.Stmt
+	over             types.Object // the slice variable whose entries are visited
 	key, val         types.Object
 	head, body, done *cfg.Block
 	in               map[*cfg.Block]bool
@@ -50,7 +133,9 @@ type c18FlowEnv struct {
 	r      *core.R
 	c      *c18Ctx
 	lit    *c18Lit
-	tableP map[types.Object]bool // parameters bound to the table (the slice header is copied, the entries are shared)
+	tableP map[types.Object]types.Object  // parameters bound to a tracked slice (the header is copied, the entries are shared)
+	addrOf map[*ast.CallExpr]types.Object // call site -> tracked slice whose address it passes
+	writes map[ast.Node]bool              // assignments to the package table the analysis has accounted for
 	entryP map[types.Object]bool
 	valsP  map[types.Object]bool
 	stack  []*ast.CallExpr
@@ -59,25 +144,42 @@ type c18FlowEnv struct {
 	reach  bool // the unmarshal call was seen
 }
 
-func (env *c18FlowEnv) isTable(fd *ast.FuncDecl, e ast.Expr) bool {
+// slot resolves e to the tracked slice variable it denotes: the package table, a parameter bound to a tracked
+// slice, a local of the table's type (decoded into, or filled from a helper's result), or a single-assignment
+// local copy of one of those (the copy shares the entries).
+func (env *c18FlowEnv) slot(fd *ast.FuncDecl, e ast.Expr) types.Object {
+	return env.slotN(fd, e, 3)
+}
+
+func (env *c18FlowEnv) slotN(fd *ast.FuncDecl, e ast.Expr, depth int) types.Object {
 	info := env.c.info
-	o := objOf(info, ast.Unparen(e))
-	if o == nil {
-		return false
+	o, _ := objOf(info, ast.Unparen(e)).(*types.Var)
+	if o == nil || o.IsField() {
+		return nil
 	}
 	if o == env.c.table {
-		return true
+		return o
 	}
-	if env.tableP[o] {
-		return !c18Reassigned(info, fd.Body, o)
+	if v, ok := env.tableP[o]; ok {
+		if c18Reassigned(info, fd.Body, o) {
+			return nil
+		}
+		return v
 	}
-	if _, isVar := o.(*types.Var); isVar && o.Parent() != env.c.pk.Types.Scope() {
-		if t, ptr := aliasTarget(info, fd.Body, o); t != nil && !ptr {
-			return objOf(info, ast.Unparen(t)) == env.c.table
+	if o.Parent() == env.c.pk.Types.Scope() || !types.Identical(o.Type().Underlying(), env.c.table.Type().Underlying()) {
+		return nil
+	}
+	if t, ptr := aliasTarget(info, fd.Body, o); t != nil && !ptr && depth > 0 {
+		if _, isID := ast.Unparen(t).(*ast.Ident); isID {
+			if v := env.slotN(fd, t, depth-1); v != nil {
+				return v
+			}
 		}
 	}
-	return false
+	return o
 }
+
+func (env *c18FlowEnv) isTable(fd *ast.FuncDecl, e ast.Expr) bool { return env.slot(fd, e) != nil }
 
 // c18Reassigned reports whether variable o is assigned, incremented or address-taken in body (a parameter or
 // loop variable that is reassigned no longer denotes what it was bound to).
@@ -102,6 +204,22 @@ func c18Reassigned(info *types.Info, body ast.Node, o types.Object) bool {
 		case *ast.RangeStmt:
 			if s.Tok == token.ASSIGN && ((s.Key != nil && objOf(info, s.Key) == o) || (s.Value != nil && objOf(info, s.Value) == o)) {
 				found = true
+			}
+		}
+		return !found
+	})
+	return found
+}
+
+// c18FieldAssigned reports whether `<o>.<f> = ...` occurs in body.
+func c18FieldAssigned(info *types.Info, body ast.Node, o types.Object, f *types.Var) bool {
+	found := false
+	ast.Inspect(body, func(n ast.Node) bool {
+		if as, ok := n.(*ast.AssignStmt); ok {
+			for _, l := range as.Lhs {
+				if fieldOf(info, l) == f && objOf(info, ast.Unparen(ast.Unparen(l).(*ast.SelectorExpr).X)) == o {
+					found = true
+				}
 			}
 		}
 		return !found
@@ -151,12 +269,13 @@ func (env *c18FlowEnv) isEntry(fd *ast.FuncDecl, loops []*c18Loop, e ast.Expr, d
 			}
 		}
 	case *ast.IndexExpr:
-		if !env.isTable(fd, t.X) {
+		over := env.slot(fd, t.X)
+		if over == nil {
 			return false
 		}
 		k := objOf(info, ast.Unparen(t.Index))
 		for _, l := range loops {
-			if k != nil && k == l.key {
+			if k != nil && k == l.key && over == l.over {
 				var body ast.Node = fd.Body
 				switch st := l.stmt.(type) {
 				case *ast.RangeStmt:
@@ -176,7 +295,18 @@ func (env *c18FlowEnv) isVals(fd *ast.FuncDecl, loops []*c18Loop, e ast.Expr, de
 	info := env.c.info
 	e = ast.Unparen(e)
 	if f := fieldOf(info, e); f != nil {
-		return f == env.c.valsF && env.isEntry(fd, loops, e.(*ast.SelectorExpr).X, 3)
+		x := e.(*ast.SelectorExpr).X
+		if f != env.c.valsF || !env.isEntry(fd, loops, x, 3) {
+			return false
+		}
+		// a struct COPY of the entry (range value, `c := table[i]`) whose list field is replaced no longer shares
+		// the table's backing array
+		if o, ok := objOf(info, ast.Unparen(x)).(*types.Var); ok {
+			if _, isPtr := o.Type().Underlying().(*types.Pointer); !isPtr && c18FieldAssigned(info, fd.Body, o, f) {
+				return false
+			}
+		}
+		return true
 	}
 	if id, ok := e.(*ast.Ident); ok {
 		o := objOf(info, id)
@@ -193,120 +323,4 @@ func (env *c18FlowEnv) isVals(fd *ast.FuncDecl, loops []*c18Loop, e ast.Expr, de
 		}
 	}
 	return false
-}
-
-// loopsOf finds the loops of fd that visit every entry of the table: `range table` and the canonical
-// `for i := 0; i < len(table); i++`.
-func (env *c18FlowEnv) loopsOf(fd *ast.FuncDecl, g *cfg.CFG) []*c18Loop {
-	info := env.c.info
-	byStmt := map[ast.Stmt]*c18Loop{}
-	var out []*c18Loop
-	get := func(st ast.Stmt) *c18Loop {
-		if l, ok := byStmt[st]; ok {
-			return l
-		}
-		l := &c18Loop{stmt: st}
-		byStmt[st] = l
-		return l
-	}
-	for _, b := range g.Blocks {
-		if !b.Live || b.Stmt == nil {
-			continue
-		}
-		switch st := b.Stmt.(type) {
-		case *ast.RangeStmt:
-			if !env.isTable(fd, st.X) {
-				continue
-			}
-			l := get(st)
-			switch b.Kind {
-			case cfg.KindRangeLoop:
-				l.head = b
-			case cfg.KindRangeBody:
-				l.body = b
-			case cfg.KindRangeDone:
-				l.done = b
-			}
-			if st.Key != nil {
-				l.key = objOf(info, st.Key)
-			}
-			if st.Value != nil {
-				l.val = objOf(info, st.Value)
-			}
-		case *ast.ForStmt:
-			key := env.indexLoop(fd, st)
-			if key == nil {
-				continue
-			}
-			l := get(st)
-			l.key = key
-			switch b.Kind {
-			case cfg.KindForLoop:
-				l.head = b
-			case cfg.KindForBody:
-				l.body = b
-			case cfg.KindForDone:
-				l.done = b
-			}
-		}
-	}
-	for _, l := range byStmt {
-		if l.head == nil || l.body == nil || l.done == nil {
-			continue
-		}
-		l.in = reachableFrom([]*cfg.Block{l.body}, func(b *cfg.Block) bool { return b == l.head })
-		delete(l.in, l.head)
-		out = append(out, l)
-	}
-	sort.Slice(out, func(i, j int) bool { return out[i].stmt.Pos() < out[j].stmt.Pos() })
-	return out
-}
-
-// indexLoop recognises `for i := 0; i < len(table); i++` with i untouched in the body and returns i.
-func (env *c18FlowEnv) indexLoop(fd *ast.FuncDecl, fs *ast.ForStmt) types.Object {
-	info := env.c.info
-	init, ok := fs.Init.(*ast.AssignStmt)
-	if !ok || len(init.Lhs) != 1 || len(init.Rhs) != 1 || fs.Cond == nil {
-		return nil
-	}
-	key := objOf(info, init.Lhs[0])
-	if v, ok := constInt(info, init.Rhs[0]); !ok || v != 0 || key == nil {
-		return nil
-	}
-	l, op, r, ok := cmpNorm(fs.Cond)
-	if !ok || (op != token.LSS && op != token.NEQ) || objOf(info, ast.Unparen(l)) != key {
-		return nil
-	}
-	call, ok := ast.Unparen(r).(*ast.CallExpr)
-	if !ok || builtinName(info, call) != "len" || len(call.Args) != 1 || !env.isTable(fd, call.Args[0]) {
-		return nil
-	}
-	post, ok := fs.Post.(*ast.IncDecStmt)
-	if !ok || post.Tok != token.INC || objOf(info, post.X) != key {
-		return nil
-	}
-	touched := false
-	ast.Inspect(fs.Body, func(n ast.Node) bool {
-		switch s := n.(type) {
-		case *ast.AssignStmt:
-			for _, l := range s.Lhs {
-				if objOf(info, l) == key {
-					touched = true
-				}
-			}
-		case *ast.IncDecStmt:
-			if objOf(info, s.X) == key {
-				touched = true
-			}
-		case *ast.UnaryExpr:
-			if s.Op == token.AND && objOf(info, s.X) == key {
-				touched = true
-			}
-		}
-		return true
-	})
-	if touched {
-		return nil
-	}
-	return key
 }
